@@ -13,6 +13,9 @@ def check(ctx):
     ctx.rule("C10.F6", "retry loop shape: range(attempts), first success returns, bare re-raise exactly on the last index (evaluated for attempts in {2,3,4,7}), Exception only")
     ctx.rule("C10.F7", "every user call / modified-time query is invoked through the retry decorator on the forwarding chain")
     ctx.assume("measured concurrency and the k + max_workers bound are derived on paper from these premises (DESIGN 4.C10)")
+    ctx.rule("C10.F8", "the engine evaluated as a whole: exactly worker_count threads are started; after the failure that exceeds max_errors (0, 1; never for None) no further call starts")
+    from .engineeval import rule_engine_evaluated
+    ctx.run(rule_engine_evaluated, "C10.F8", None, ("workers", "budget"))
     r = E.discover(ctx.model)
     rr = R.discover(ctx.model, r)
     ur = make_user_reaching(ctx.model)
